@@ -3,6 +3,7 @@
    ([cer_canonical]): simple types under any stack of tags, strings of any length (1000-octet
    segments; BIT STRING 999 octets of bits per segment), TRUE = FF.  Outside finding F01. *)
 From Coq Require Import Lia.
+From PV Require Proofs.TagsetShape.
 From PV Require Import Base.Bytes Model.Tag Model.TableTypes Model.Types Model.Enc Gen.Tables Spec.X690
      Proofs.Bits Proofs.SpecOctets Proofs.LeafInt Proofs.LeafOidBits Proofs.LeafReal Proofs.TagAlgebra
      Proofs.DerReference Proofs.ReaderParse Proofs.ReaderInterp Proofs.ReaderLeafOidBits Proofs.ReaderLeafReal
@@ -84,11 +85,46 @@ Qed.
 
 (* ---------- what the CER encoder amounts to on the fragment ---------- *)
 
+(* definite length octets exist only below 256^126 *)
+Lemma digits256_bound : forall f n, (N.size_nat n <= f)%nat -> n < 256 ^ N.of_nat (length (digits f 256 n)).
+Proof.
+  induction f as [|f IH]; intros n Hf.
+  - assert (n = 0) as -> by (apply size_nat_0; lia). cbn. lia.
+  - cbn [digits]. destruct (N.ltb_spec n 256) as [Hs|Hl]; [cbn [length]; change (256 ^ N.of_nat 1) with 256; exact Hs|].
+    assert (Hn: n <> 0) by lia.
+    pose proof (size_nat_div n 8 Hn eq_refl) as Hd. change (2 ^ 8) with 256 in Hd.
+    specialize (IH (n / 256) ltac:(lia)).
+    rewrite app_length. cbn [length]. rewrite Nat.add_1_r, pow256_succ.
+    pose proof (N.div_mod n 256 ltac:(lia)). pose proof (N.mod_lt n 256 ltac:(lia)). lia.
+Qed.
+
+Lemma enc_len_ok_bound n l : enc_len n false = Ok l -> n < max_len.
+Proof.
+  unfold enc_len. destruct (N.ltb_spec n 128) as [Hs|Hl].
+  - intros _. assert (128 < max_len) by (vm_compute; reflexivity). lia.
+  - destruct (Nat.ltb_spec 126 (length (b256 n))) as [Hbig|Hok]; [discriminate|]. intros _.
+    rewrite <- digits_of_256_is_b256 in Hok by lia. unfold digits_of in Hok.
+    pose proof (digits256_bound (N.size_nat n) n (Nat.le_refl _)) as Hb.
+    assert (256 ^ N.of_nat (length (digits (N.size_nat n) 256 n)) <= 256 ^ 126) by (apply N.pow_le_mono_r; lia).
+    unfold max_len. lia.
+Qed.
+
+Lemma frame_prim_bound t0 r content o si b : frame (t0 :: r) content false o si = Ok b ->
+  N.of_nat (length content) < max_len.
+Proof.
+  cbn [frame]. rewrite Bool.andb_false_r. cbn [andb].
+  destruct (frame_one t0 false true si content) as [s0|] eqn:E0; cbn [bind]; [|discriminate]. intros _.
+  unfold frame_one in E0. cbn [negb andb] in E0.
+  destruct (enc_len (N.of_nat (length content)) false) as [l|] eqn:El; cbn [bind] in E0; [|discriminate E0].
+  apply (enc_len_ok_bound _ l El).
+Qed.
+
 Lemma cer_output_shape T v d k b : der_ref_val T v = true -> no_f01 T = true -> encode CER d k T v = Ok b ->
   exists cd fl content ic t0 r,
     concrete_encoder CER (base_of T) = Ok (cd, fl) /\
     enc_content CER (base_of T) cd fl cer_opts v = Ok (content, ic) /\
     tagset_of T = Ok (t0 :: r) /\ tcon t0 = false /\
+    (ic = false -> N.of_nat (length content) < max_len) /\
     b = gframe_ts true (t0 :: r) ic (if ic then [128] ++ content ++ [0; 0]
                                       else length_octets (N.of_nat (length content)) ++ content).
 Proof.
@@ -103,7 +139,7 @@ Proof.
   destruct (leaf_reads CER (base_of T) v cd fl cer_opts content ic Hd Ece Ec) as (Hfl & Hic & _).
   exists cd, fl, content, ic, t0, r. split; [exact Ece|split; [exact Ec|split; [reflexivity|]]].
   assert (Hc0': tcon t0 = false) by (rewrite Hc0; destruct (base_of T); try discriminate Hs; reflexivity).
-  split; [exact Hc0'|].
+  split; [exact Hc0'|]. split; [intros ->; apply (frame_prim_bound t0 r content cer_opts (ef_indef fl) b He)|].
   apply (frame_gframe t0 r content ic cer_opts (ef_indef fl) b eq_refl Hall) in He.
   - rewrite Hc0' in He. cbn [orb o_def cer_opts negb] in He. rewrite Bool.andb_true_r in He. exact He.
   - intros _ Hne. rewrite Hfl. unfold no_f01 in Hf. apply Bool.orb_true_iff in Hf. destruct Hf as [Hf|Hf]; [exact Hf|].
@@ -117,7 +153,7 @@ Theorem cer_is_reference_simple : forall T v d k b,
   der_ref_val T v = true -> no_f01 T = true -> encode CER d k T v = Ok b -> X690.cer T v = Some b.
 Proof.
   intros T v d k b Hd Hf He.
-  destruct (cer_output_shape T v d k b Hd Hf He) as (cd & fl & content & ic & t0 & r & Hce & Hc & Hts & Hc0 & ->).
+  destruct (cer_output_shape T v d k b Hd Hf He) as (cd & fl & content & ic & t0 & r & Hce & Hc & Hts & Hc0 & _ & ->).
   unfold der_ref_val in Hd. pose proof (der_ref_simple _ _ Hd) as Hs.
   destruct (canon_simple (base_of T) v Hs) as [Htb _].
   unfold cer. apply (canon_wrappers_g T v true ic _ (base_tag (base_of T)) (simple_tagged T Hs) Htb); [|exact Hts].
@@ -127,37 +163,39 @@ Qed.
 
 (* ---------- clause 9 shape ---------- *)
 
-Lemma small_lt_max n : (n <= 1001)%nat -> N.of_nat n < max_len.
+Lemma small_lt_max n : (n <= 1000)%nat -> N.of_nat n < max_len.
 Proof.
-  intros H. assert (1001 < max_len) by (vm_compute; reflexivity). lia.
+  intros H. assert (1000 < max_len) by (vm_compute; reflexivity). lia.
 Qed.
 
-Lemma cer_ok_pieces n ps : n <> 0 -> Forall (fun p => (length p <= 1001)%nat) ps ->
-  Forall cer_ok (map (tlv Univ false n) ps) /\ Forall nz_head (map (tlv Univ false n) ps).
-Proof.
-  intros Hn Hps. split; [|apply pieces_nz; exact Hn].
-  apply Forall_forall. intros e He. apply in_map_iff in He. destruct He as (p & <- & Hp).
-  rewrite Forall_forall in Hps. specialize (Hps p Hp). apply cer_ok_prim; [apply small_lt_max; exact Hps|exact Hps].
-Qed.
+Lemma E999 : N.to_nat 999 = 999%nat.
+Proof. lia. Qed.
 
-(* the CER encoder's string contents: at most 1000 octets in one piece, else 1000-octet pieces *)
+(* the CER encoder's string contents: at most 1000 octets in one piece, else full 1000-octet pieces
+   and a last, non-empty one (for BIT STRING the initial octet of each piece is counted) *)
 Lemma cer_contents_small B v cd fl content ic :
   der_ref_base B v = true -> concrete_encoder CER B = Ok (cd, fl) ->
   enc_content CER B cd fl cer_opts v = Ok (content, ic) ->
-  (ic = false -> indef_base B = true -> (length content <= 1001)%nat) /\
-  (ic = true -> exists n ps, n <> 0 /\ content = concat (map (tlv Univ false n) ps) /\
-                              Forall (fun p => (length p <= 1001)%nat) ps).
+  (ic = false -> indef_base B = true -> (length content <= 1000)%nat) /\
+  (ic = true -> exists n ps, (n = 3 \/ n = 4) /\ content = concat (map (tlv Univ false n) ps) /\
+                              Forall (fun p => (length p <= 1000)%nat) ps /\ seg_ok ps = true).
 Proof.
   intros Hd Hce He.
   assert (Hstr: forall v0 b0, octets_of v0 = Some b0 -> enc_octets_like cer_opts v0 = Ok (content, ic) ->
-            (ic = false -> (length content <= 1001)%nat) /\
-            (ic = true -> exists n ps, n <> 0 /\ content = concat (map (tlv Univ false n) ps) /\
-                                        Forall (fun p => (length p <= 1001)%nat) ps)).
+            (ic = false -> (length content <= 1000)%nat) /\
+            (ic = true -> exists n ps, (n = 3 \/ n = 4) /\ content = concat (map (tlv Univ false n) ps) /\
+                                        Forall (fun p => (length p <= 1000)%nat) ps /\ seg_ok ps = true)).
   { intros v0 b0 Ho Hx.
-    destruct (enc_octets_like_shape cer_opts v0 b0 content ic Ho Hx) as [(-> & -> & Hk)|(-> & Hk & ->)].
+    destruct (enc_octets_like_shape cer_opts v0 b0 content ic Ho Hx) as [(-> & -> & Hk)|(-> & Hk & -> & Hgt)].
     - split; [|discriminate]. intros _. cbn [cer_opts o_chunk] in Hk. destruct Hk as [Hk|Hk]; [discriminate Hk|lia].
-    - split; [discriminate|]. intros _. exists 4. eexists. split; [lia|split; [reflexivity|]].
-      apply Forall_forall. intros p Hp. apply segs_in_len in Hp. cbn [cer_opts o_chunk] in Hp. lia. }
+    - split; [discriminate|]. intros _. cbn [cer_opts o_chunk] in *.
+      assert (E1000: N.to_nat 1000 = 1000%nat) by lia. rewrite E1000 in *.
+      exists 4. eexists. split; [right; reflexivity|split; [reflexivity|split]].
+      + apply Forall_forall. intros p Hp. apply segs_in_len in Hp. lia.
+      + rewrite <- chunks_is_segs, <- (map_id (chunks _ _ _)).
+        apply (seg_ok_chunks (fun x : bytes => x) 1000); [lia|intros p Hp; exact Hp| | |lia].
+        * intros p Hne Hle. destruct p; [congruence|cbn [length] in *; lia].
+        * destruct b0; [cbn [length] in Hgt; lia|discriminate]. }
   destruct B; try discriminate Hd; destruct v as [bb|z|bs|bo|cs| |arcs|r|vfs|xs|i x|ab]; try discriminate Hd.
   - encoder_is' Hce. cbn [enc_content] in He. injection He as <- <-. split; [discriminate|discriminate].
   - encoder_is' Hce. cbn [enc_content] in He. injection He as <- <-. split; [discriminate|discriminate].
@@ -165,20 +203,25 @@ Proof.
   - (* BIT STRING *)
     encoder_is' Hce. cbn [enc_content] in He.
     change (enc_bits (mkOpts false 999 false) bs = Ok (content, ic)) in He.
-    destruct (enc_bits_shape _ bs content ic He) as [(-> & -> & Hk)|(-> & Hk & ->)].
+    destruct (enc_bits_shape _ bs content ic He) as [(-> & -> & Hk)|(-> & Hk & -> & Hgt)].
     + split; [|discriminate]. intros _ _. cbn [o_chunk] in Hk. destruct Hk as [Hk|Hk]; [discriminate Hk|].
-      unfold enc_bits_prim. cbn [length]. rewrite bits_octets_length.
-      assert (E999: N.to_nat 999 = 999%nat) by lia. rewrite E999 in Hk.
+      unfold enc_bits_prim. cbn [length]. rewrite bits_octets_length. rewrite E999 in Hk.
       assert ((length bs + pad_of (length bs)) / 8 <= 999)%nat by (apply Nat.div_le_upper_bound; lia). lia.
-    + split; [discriminate|]. intros _. exists 3. eexists. split; [lia|split; [reflexivity|]].
-      apply Forall_forall. intros q Hq. apply in_map_iff in Hq. destruct Hq as (p & <- & Hp).
-      apply chunks_in_len in Hp. destruct Hp as [Hp _]. cbn [o_chunk] in Hp.
-      assert (E999: N.to_nat 999 = 999%nat) by lia. rewrite E999 in Hp.
-      unfold enc_bits_prim. cbn [length]. rewrite bits_octets_length.
-      pose proof (pad_aligned (length p)) as Ha. pose proof (pad_of_lt (length p)) as Hlt.
-      assert ((length p + pad_of (length p)) / 8 <= 999)%nat.
-      { apply Nat.div_le_upper_bound; [lia|]. unfold pad_of in *. lia. }
-      lia.
+    + split; [discriminate|]. intros _. cbn [o_chunk] in *. rewrite E999 in *.
+      assert (Hsz: forall p : list bool, (length p <= 999 * 8)%nat -> (length (enc_bits_prim p) <= 1000)%nat).
+      { intros p Hp. unfold enc_bits_prim. cbn [length]. rewrite bits_octets_length.
+        pose proof (pad_aligned (length p)) as Ha. pose proof (pad_of_lt (length p)) as Hlt.
+        assert ((length p + pad_of (length p)) / 8 <= 999)%nat.
+        { apply Nat.div_le_upper_bound; [lia|]. unfold pad_of in *. lia. }
+        lia. }
+      exists 3. eexists. split; [left; reflexivity|split; [reflexivity|split]].
+      * apply Forall_forall. intros q Hq. apply in_map_iff in Hq. destruct Hq as (p & <- & Hp).
+        apply chunks_in_len in Hp. apply Hsz. lia.
+      * apply (seg_ok_chunks enc_bits_prim (999 * 8)); [lia| | | |lia].
+        -- intros p Hp. unfold enc_bits_prim. cbn [length]. rewrite bits_octets_length, Hp.
+           rewrite (pad_of_0 (999 * 8)) by (apply Nat.mod_mul; lia). rewrite Nat.add_0_r, Nat.div_mul by lia. reflexivity.
+        -- intros p Hne Hle. split; [unfold enc_bits_prim; cbn [length]; lia|apply Hsz; exact Hle].
+        -- destruct bs; [cbn [length pad_of] in Hgt; cbn in Hgt; lia|discriminate].
   - (* OCTET STRING *)
     encoder_is' Hce. cbn [enc_content] in He. destruct (Hstr (VOcts bo) bo eq_refl He) as [H1 H2]. split; auto.
   - encoder_is' Hce. cbn [enc_content] in He. injection He as <- <-. split; [discriminate|discriminate].
@@ -200,38 +243,106 @@ Proof.
     destruct (Hstr (VChars cs) (concat cs) eq_refl Hx) as [H1 H2]. split; auto.
 Qed.
 
-(* (3) canonical form: indefinite length exactly for the constructed encodings, string segments
-   of 1000 contents octets.  For the types that are never segmented (INTEGER, OBJECT IDENTIFIER,
-   REAL ...) [cer_shape] - which does not know the type - asks that the whole encoding stay within
-   1001 octets; see [cer_shape_limits_primitives] below. *)
+(* The shape check does not know the type: it recognises a string by a UNIVERSAL string tag number.
+   A tag written [UNIVERSAL 4] IMPLICIT over, say, an INTEGER would make it apply the string rules
+   to something that is not a string; [cer_tags_ok] excludes such tags (any type whose written tags
+   are APPLICATION / CONTEXT / PRIVATE satisfies it: [wf_cer_tags_ok]). *)
+Definition ustr_tag (t: tag) : bool := ustr (tcls t) (tnum t).
+Definition cer_tags_ok (T: ty) : bool :=
+  match tagset_of T with
+  | Ok (t0 :: r) => (indef_base (base_of T) || negb (ustr_tag t0)) && forallb (fun t => negb (ustr_tag t)) r
+  | _ => true
+  end.
+
+(* (3) canonical form: indefinite length exactly for the constructed encodings; a string of at most
+   1000 contents octets primitive; a longer one a run of primitive segments of exactly 1000 contents
+   octets and a last, non-empty one ([cer_segments], when the string carries its universal tag). *)
 Theorem cer_output_canonical : forall T v d k b,
-  der_ref_val T v = true -> no_f01 T = true -> eoc_safe T = true ->
-  (indef_base (base_of T) = true \/ (length b <= 1001)%nat) ->
+  der_ref_val T v = true -> no_f01 T = true -> eoc_safe T = true -> cer_tags_ok T = true ->
   encode CER d k T v = Ok b -> cer_canonical b = true.
 Proof.
-  intros T v d k b Hd Hf Hsafe Hsmall He.
-  destruct (cer_output_shape T v d k b Hd Hf He) as (cd & fl & content & ic & t0 & r & Hce & Hc & Hts & Hc0 & Hb).
+  intros T v d k b Hd Hf Hsafe Htags He.
+  destruct (cer_output_shape T v d k b Hd Hf He) as (cd & fl & content & ic & t0 & r & Hce & Hc & Hts & Hc0 & Hbd & Hb).
   unfold der_ref_val in Hd.
   destruct (cer_contents_small (base_of T) v cd fl content ic Hd Hce Hc) as [Hs1 Hs2].
+  destruct (leaf_reads CER (base_of T) v cd fl cer_opts content ic Hd Hce Hc) as (_ & Hic & _).
   pose proof (eoc_safe_free T _ ic Hsafe Hts) as Hfree.
+  unfold cer_tags_ok in Htags. rewrite Hts in Htags. apply andb_true_iff in Htags. destruct Htags as [Ht0 Hr].
   apply cer_ok_canonical.
   pose (inner := ident (tcls t0) ic (tnum t0) ++
                 (if ic then [128] ++ content ++ [0; 0] else length_octets (N.of_nat (length content)) ++ content)).
   change (b = fold_left (wrap_step true) r inner) in Hb.
   assert (Hinner: cer_ok inner).
-  { pose proof (fold_wrap_length true r inner) as Hw. rewrite <- Hb in Hw. clear Hb.
-    subst inner. destruct ic.
-    - destruct (Hs2 eq_refl) as (n & ps & Hn & -> & Hps).
-      destruct (cer_ok_pieces n ps Hn Hps) as [H1 H2].
-      apply (cer_ok_itlv (tcls t0) (tnum t0) _ H1 H2).
-    - assert (Hlen: (length content <= 1001)%nat).
-      { destruct Hsmall as [Hi|Hl]; [apply Hs1; [reflexivity|exact Hi]|].
-        rewrite !app_length in Hw. lia. }
-      apply (cer_ok_prim (tcls t0) (tnum t0) content); [apply small_lt_max; exact Hlen|exact Hlen]. }
+  { subst inner. destruct ic.
+    - destruct (Hs2 eq_refl) as (n & ps & Hn & -> & Hps & Hseg).
+      apply (cer_ok_itlv_pieces (tcls t0) (tnum t0) n ps).
+      + destruct Hn as [-> | ->]; discriminate.
+      + apply Forall_forall. intros p Hp. rewrite Forall_forall in Hps. apply small_lt_max. apply Hps. exact Hp.
+      + intros _. exact Hps.
+      + intros _. exact Hseg.
+    - apply (cer_ok_prim (tcls t0) (tnum t0) content); [apply Hbd; reflexivity|].
+      intros Hu. apply Hs1; [reflexivity|].
+      apply Bool.orb_true_iff in Ht0. destruct Ht0 as [Hi|Hn]; [exact Hi|].
+      unfold ustr_tag in Hn. rewrite Hu in Hn. discriminate Hn. }
+  assert (Hr': Forall (fun t => ustr (tcls t) (tnum t) = false) r).
+  { apply Forall_forall. intros t Ht. rewrite forallb_forall in Hr. specialize (Hr t Ht).
+    apply Bool.negb_true_iff in Hr. exact Hr. }
   destruct r as [|t1 r'].
   - cbn [fold_left] in Hb. subst b. exact Hinner.
-  - subst b. apply cer_ok_wrap; [exact Hinner|].
+  - subst b. apply cer_ok_wrap; [exact Hr'|exact Hinner|].
     subst inner. apply ident_nz_head. cbn [eoc_free] in Hfree. tauto.
+Qed.
+
+(* types whose written tags are all APPLICATION, CONTEXT or PRIVATE *)
+Lemma wf_tagset : forall T, simple_base (base_of T) = true -> TagsetShape.wf_tags T = true ->
+  forall ts, tagset_of T = Ok ts ->
+  exists t0 r, ts = t0 :: r /\ (t0 = base_tag (base_of T) \/ tcls t0 <> Univ) /\ Forall (fun t => tcls t <> Univ) r.
+Proof.
+  induction T as [| | | | | | | | n|fs IH|fs IH|t IH|t IH|alts IH| |tg x IH|tg x IH] using ty_ind';
+    intros Hs Hw ts Hts; try discriminate Hs;
+    try (injection Hts as <-; eexists; exists []; split; [reflexivity|split; [left; reflexivity|constructor]]).
+  - cbn [TagsetShape.wf_tags] in Hw. apply andb_true_iff in Hw. destruct Hw as [Hcl Hw].
+    assert (Hnu: tcls tg <> Univ) by (destruct (tcls tg); try discriminate; cbn in Hcl; congruence).
+    cbn [tagset_of] in Hts. destruct (tagset_of x) as [ts'|] eqn:Ex; cbn [bind] in Hts; [|discriminate].
+    injection Hts as <-. destruct (IH Hs Hw ts' eq_refl) as (t0 & r & -> & H0 & Hall).
+    destruct r as [|r1 r'].
+    + eexists. exists []. split; [reflexivity|split; [right; exact Hnu|constructor]].
+    + destruct (@exists_last _ (r1 :: r')) as (r0 & last & E); [discriminate|]. rewrite E in *.
+      rewrite app_comm_cons, tag_implicitly_spec. cbn [app].
+      exists t0. eexists. split; [reflexivity|split; [exact H0|]].
+      apply Forall_app in Hall. destruct Hall as [Ha _]. apply Forall_app. split; [exact Ha|].
+      constructor; [exact Hnu|constructor].
+  - cbn [TagsetShape.wf_tags] in Hw. apply andb_true_iff in Hw. destruct Hw as [Hcl Hw].
+    assert (Hnu: tcls tg <> Univ) by (destruct (tcls tg); try discriminate; cbn in Hcl; congruence).
+    cbn [tagset_of] in Hts. destruct (tagset_of x) as [ts'|] eqn:Ex; cbn [bind] in Hts; [|discriminate].
+    pose proof (tag_explicitly_spec ts' tg) as Hsp. rewrite Hts in Hsp. destruct Hsp as [_ ->].
+    destruct (IH Hs Hw ts' eq_refl) as (t0 & r & -> & H0 & Hall).
+    exists t0. eexists. split; [reflexivity|split; [exact H0|]].
+    apply Forall_app. split; [exact Hall|]. constructor; [exact Hnu|constructor].
+Qed.
+
+Lemma ustr_non_univ c num : c <> Univ -> ustr c num = false.
+Proof. intros H. unfold ustr. destruct c; [congruence|reflexivity|reflexivity|reflexivity]. Qed.
+
+Lemma wf_cer_tags_ok T : simple_base (base_of T) = true -> TagsetShape.wf_tags T = true -> cer_tags_ok T = true.
+Proof.
+  intros Hs Hw. unfold cer_tags_ok. destruct (tagset_of T) as [ts|] eqn:Ets; [|reflexivity].
+  destruct (wf_tagset T Hs Hw ts Ets) as (t0 & r & -> & H0 & Hall).
+  apply andb_true_iff. split.
+  - destruct H0 as [-> |Hn].
+    + destruct (base_of T); try discriminate Hs; reflexivity.
+    + unfold ustr_tag. rewrite (ustr_non_univ _ _ Hn). apply Bool.orb_true_r.
+  - apply forallb_forall. intros t Ht. rewrite Forall_forall in Hall. unfold ustr_tag.
+    rewrite (ustr_non_univ _ _ (Hall t Ht)). reflexivity.
+Qed.
+
+Corollary cer_output_canonical_wf : forall T v d k b,
+  der_ref_val T v = true -> TagsetShape.wf_tags T = true -> no_f01 T = true -> eoc_safe T = true ->
+  encode CER d k T v = Ok b -> cer_canonical b = true.
+Proof.
+  intros T v d k b Hd Hw Hf Hsafe He.
+  apply (cer_output_canonical T v d k b Hd Hf Hsafe); [|exact He].
+  apply wf_cer_tags_ok; [apply (der_ref_simple _ _ Hd)|exact Hw].
 Qed.
 
 (* ---- witnesses ---- *)
@@ -277,16 +388,28 @@ Example cer_is_reference_refuted_F01 :
   cer_canonical [161; 3; 2; 1; 5; 0; 0] = false.
 Proof. vm_compute. repeat split. Qed.
 
-(* the shape check of the reference does not know the type: a primitive INTEGER of more than 1001
-   contents octets is canonical CER (only strings are segmented, X.690 9.2) but [cer_shape] rejects
-   it - an imprecision of Spec/X690.v [cer_shape], not of the library; hence the size hypothesis *)
-Example cer_shape_limits_primitives :
+(* only strings are segmented (X.690 9.2): a primitive INTEGER of more than 1000 contents octets is
+   canonical CER *)
+Example cer_canonical_large_integer :
   let v := VInt (2 ^ (8 * 1001))%Z in
-  exists b, encode CER true 0 TInt v = Ok b /\ cer TInt v = Some b /\ length b = 1006%nat /\ cer_canonical b = false.
+  cer_tags_ok TInt = true /\
+  exists b, encode CER true 0 TInt v = Ok b /\ cer TInt v = Some b /\ length b = 1006%nat /\ cer_canonical b = true.
 Proof.
-  cbv zeta. eexists. split; [vm_compute; reflexivity|]. split; [vm_compute; reflexivity|]. split; vm_compute; reflexivity.
+  cbv zeta. split; [reflexivity|].
+  eexists. split; [vm_compute; reflexivity|]. split; [vm_compute; reflexivity|]. split; vm_compute; reflexivity.
+Qed.
+
+(* why [cer_tags_ok]: [UNIVERSAL 4] IMPLICIT INTEGER - the untyped check takes it for an OCTET STRING *)
+Example cer_canonical_needs_tags_ok :
+  let T := TImp (mkTag Univ false 4) TInt in let v := VInt (2 ^ (8 * 1001))%Z in
+  der_ref_val T v = true /\ no_f01 T = true /\ eoc_safe T = true /\ cer_tags_ok T = false /\
+  exists b, encode CER true 0 T v = Ok b /\ cer T v = Some b /\ cer_canonical b = false.
+Proof.
+  cbv zeta. repeat (split; [vm_compute; reflexivity|]).
+  eexists. split; [vm_compute; reflexivity|]. split; vm_compute; reflexivity.
 Qed.
 
 Print Assumptions cer_contents.
 Print Assumptions cer_is_reference_simple.
 Print Assumptions cer_output_canonical.
+Print Assumptions cer_output_canonical_wf.
